@@ -111,6 +111,7 @@ def run(tier):
         for ci, ch in enumerate(specgen.chunks(groups, per)):
             j = dict(groups=ch, tag="%s-%d" % (tag, ci), knobs=knobs, flex_args=["-v"])
             j.update(kw)
+            j["cdefs"] = list(j.get("cdefs", ())) + ["VF_NO_EDGE_COVER"] * 0
             jobs.append(j)
 
     # simplest first
@@ -122,6 +123,13 @@ def run(tier):
     add_jobs(spelling_groups(spellings.posix_repeat_spellings(), "X"), "lexcompat", 50, flex_args=["-v", "-l"])
     add_jobs(ast_groups(min(k, 2), L), "ast")
     add_jobs(ruleset_groups(L, 8 if quick else 12), "rules")
+    # the same rule sets through the other matching engines: REJECT tables (accept lists), full and fast tables,
+    # and with tiny buffers so that tokens and back-ups straddle refills
+    small = dict(knobs={"VF_BUFSIZES": "0,2,3"})
+    add_jobs(ruleset_groups(L - 1, 6), "rules+reject", options=["reject"])   # REJECT scanners cannot grow their buffer
+    add_jobs(ruleset_groups(L - 1, 6), "rules+Cf", flex_args=["-v", "-Cf"], **small)
+    add_jobs(ruleset_groups(L - 1, 6), "rules+CF", flex_args=["-v", "-CF"], **small)
+    add_jobs(ruleset_groups(L - 1, 6), "rules+Cem-small", **small)
     add_jobs(big_groups(), "big", 1)
     if not quick:
         add_jobs(spelling_groups(spellings.setop_spellings(2), "OO"), "setop2", 60)
@@ -137,6 +145,9 @@ def run(tier):
             continue
         if "build_failure" in res:
             bf = res["build_failure"]
+            if H.harness_own_error(bf):
+                ck.broken.append("harness does not compile: " + bf["stderr"][:300])
+                continue
             ck.violation("C01:%s-refused:%s" % (bf["stage"], job["tag"].split("-")[0]),
                          "%s refused a specification made only of documented patterns: %s" % (
                              bf["stage"], bf["stderr"].strip().splitlines()[-1] if bf["stderr"].strip() else ""),
